@@ -370,6 +370,28 @@ func exec(planJSON []byte, run *core.Run) {
 		return err == nil, true
 	}
 
+	if pb && p.Seed%4 == 0 {
+		// a caller of FixedBlind brings a salt of another length than the variant's (the hash
+		// size): refused, or else what the protocol then produces is a signature the library's
+		// own verifier accepts
+		saltN := []int{0, 32, 47, 49}[(p.Seed/4)%4]
+		r, _ := rand.Int(core.NewStream(p.Seed+31), N)
+		for r.Sign() == 0 || new(big.Int).GCD(nil, nil, r, N).Cmp(big.NewInt(1)) != 0 {
+			r.Add(r, big.NewInt(1))
+		}
+		bm, st, err := pverifier.FixedBlind(msg, meta, core.NewPRNG(p.Seed+32).Bytes(saltN), r.Bytes(), new(big.Int).ModInverse(r, N).Bytes())
+		run.Fault("misuse:salt-of-another-length")
+		if err == nil {
+			if bs, err := sign(bm); err == nil {
+				if sg, err := st.Finalize(bs); err == nil {
+					if ok, fine := libVerify(msg, meta, sg); fine && !ok {
+						run.Violate(comp+".FixedBlind", "produces-a-signature-its-own-verifier-rejects", "FixedBlind accepts a %d-byte salt; blind-sign and Finalize succeed; the library's Verify refuses the result", saltN)
+						return
+					}
+				}
+			}
+		}
+	}
 	if p.Fault == "entropy-error" {
 		run.Fault("entropy:error")
 		s, err := blind(p.Seed+1, p.Seed+2, p.Seed+3, true)
